@@ -10,13 +10,3 @@ NOT_APPLICABLE = {
            "an empirical envelope with a calibrated constant, not a theorem of any executable model short of scipy itself "
            "(DESIGN.md §3 C12). The provable ingredient (the objective is a KL estimator) is claimed under C10.",
 }
-TEXT = {
-    "C03": dict(
-        level="Universal Lean theorems (any sample with ties/zero weights/±inf, any bounds, any query; values in any linear order, "
-              "weights in any ordered field): the model's cdf/pmf equal the normalised weight of observations <=y / =y and ppf "
-              "satisfies the Galois law ppf q <= y <-> q <= cdf y; restated for the very terms the driver runs. The model is tied "
-              "to the code on every run by exact-rational differential execution (cdf/pmf to the property's 1e-12, ppf exactly "
-              "outside the excluded 1e-12 tie zone, moments, shapes).",
-        note="Proved: Model = Spec in exact arithmetic. Compared, not proved: numpy float rounding (inside the 1e-12 of the property), "
-             "np.unique/searchsorted/argmax semantics (mirrored by the model and exercised by the correspondence). NaN observations excluded."),
-}
